@@ -17,8 +17,8 @@ def idemFrag : FieldDecl → Bool
   | .tupleOf f _ => idemFrag f
   | .tuplePos fs _ => idemFrags fs
   | .struct c _ _ => !c.inline
-  | .setAny _ _ => false
-  | .setOf _ _ _ => false
+  | .setAny _ _ => true
+  | .setOf _ f _ => idemFrag f
   | .mapAny _ => false
   | .mapOf _ _ _ => false
   | .anyOf _ => false
@@ -55,6 +55,73 @@ theorem c01_all_map_stable (a : PyVal → Bool) (n : PyVal → PyVal) :
     have h2 := c01_all_map_stable a n xs (fun y hy => h y (by simp [hy])) hx.2
     simp only [List.map_cons, List.all_cons, and_true_iff]
     exact ⟨⟨h1.1, h2.1⟩, by rw [h1.2, h2.2]⟩
+
+/-- later elements are never `==` to an earlier one (what `dedup` establishes) -/
+def DistinctL : List PyVal → Prop
+  | [] => True
+  | x :: xs => (∀ y ∈ xs, pyEq x y = false) ∧ DistinctL xs
+
+theorem c01_distinct_filter (p : PyVal → Bool) : ∀ xs, DistinctL xs → DistinctL (xs.filter p)
+  | [], _ => trivial
+  | x :: xs, h => by
+    simp only [List.filter_cons]
+    split
+    · exact ⟨fun y hy => h.1 y (List.mem_filter.1 hy).1, c01_distinct_filter p xs h.2⟩
+    · exact c01_distinct_filter p xs h.2
+
+theorem c01_dedup_distinct : ∀ xs, DistinctL (dedup xs)
+  | [] => trivial
+  | x :: xs => by
+    simp only [dedup]
+    refine ⟨fun y hy => ?_, c01_distinct_filter _ _ (c01_dedup_distinct xs)⟩
+    have := (List.mem_filter.1 hy).2
+    simpa using this
+
+theorem c01_dedup_of_distinct : ∀ xs, DistinctL xs → dedup xs = xs
+  | [], _ => rfl
+  | x :: xs, h => by
+    simp only [dedup, c01_dedup_of_distinct xs h.2]
+    congr 1
+    apply List.filter_eq_self.2
+    intro y hy
+    simp [h.1 y hy]
+
+theorem c01_dedup_dedup (xs : List PyVal) : dedup (dedup xs) = dedup xs :=
+  c01_dedup_of_distinct _ (c01_dedup_distinct xs)
+
+
+theorem c01_mem_dedup : ∀ (xs : List PyVal) (y : PyVal), y ∈ dedup xs → y ∈ xs
+  | [], _, h => by simp [dedup] at h
+  | x :: xs, y, h => by
+    simp only [dedup, List.mem_cons, List.mem_filter] at h ⊢
+    rcases h with h | h
+    · exact Or.inl h
+    · exact Or.inr (c01_mem_dedup xs y h.1)
+
+theorem c01_map_fix (nm : PyVal → PyVal) : ∀ l : List PyVal, (∀ y ∈ l, nm y = y) → l.map nm = l
+  | [], _ => rfl
+  | y :: l, h => by
+    simp only [List.map_cons, h y (by simp), c01_map_fix nm l (fun z hz => h z (by simp [hz]))]
+
+theorem c01_aSet_stable (imm : Bool) (sz : SizeOpts) (ad : PyVal → Bool) (nm : PyVal → PyVal) (v : PyVal)
+    (hst : ∀ x, ad x = true → Stable ad nm x)
+    (h : aSet sz (fun xs => xs.all ad) (List.map nm) v = true) :
+    aSet sz (fun xs => xs.all ad) (List.map nm) (nSet imm (List.map nm) v) = true
+      ∧ nSet imm (List.map nm) (nSet imm (List.map nm) v) = nSet imm (List.map nm) v := by
+  unfold aSet at h
+  cases v <;> simp at h
+  rename_i fr xs
+  obtain ⟨⟨h1, h2⟩, h3⟩ := h
+  have h2' : xs.all ad = true := by simpa using h2
+  have hall := c01_all_map_stable ad nm xs (fun x _ hx => hst x hx) h2'
+  have hfix : ∀ y ∈ dedup (xs.map nm), nm y = y := by
+    intro y hy
+    have hy' := c01_mem_dedup _ y hy
+    rcases List.mem_map.1 hy' with ⟨x, hx, rfl⟩
+    exact (hst x ((List.all_eq_true.1 h2') x hx)).2
+  have hmap : (dedup (xs.map nm)).map nm = dedup (xs.map nm) := c01_map_fix nm _ hfix
+  simp only [nSet, aSet, hmap, c01_dedup_dedup, and_true_iff, Bool.or_assoc, Bool.or_self]
+  exact ⟨⟨⟨h3, dedup_all ad _ hall.1⟩, h3⟩, trivial⟩
 
 theorem c01_aSeq_stable (k : SeqKind) (sz : SizeOpts) (pre a : List PyVal → Bool)
     (n : List PyVal → List PyVal) (v : PyVal)
@@ -138,8 +205,16 @@ theorem norm_stable (O : Oracles) : ∀ (f : FieldDecl) (v : PyVal), idemFrag f 
   | .notF fs, v, _, h => by simp only [admits, norm] at *; exact ⟨h, trivial⟩
   | .noneF, v, _, h => by simp only [admits, norm] at *; exact ⟨h, trivial⟩
   | .anything, v, _, _ => by simp only [admits, norm]; exact ⟨trivial, trivial⟩
-  | .setAny _ _, _, hf, _ => by simp [idemFrag] at hf
-  | .setOf _ _ _, _, hf, _ => by simp [idemFrag] at hf
+  | .setAny imm sz, v, _, h => by
+    simp only [admits, norm] at *
+    unfold aSet at h
+    cases v <;> simp at h
+    rename_i fr xs
+    simp only [nSet, aSet, id, c01_dedup_dedup, and_true_iff, Bool.or_assoc, Bool.or_self]
+    exact ⟨⟨⟨h.2, trivial⟩, h.2⟩, trivial⟩
+  | .setOf imm f sz, v, hf, h => by
+    simp only [admits, norm, idemFrag] at *
+    exact c01_aSet_stable imm sz _ _ v (fun x hx => norm_stable O f x hf hx) h
   | .mapAny _, _, hf, _ => by simp [idemFrag] at hf
   | .mapOf _ _ _, _, hf, _ => by simp [idemFrag] at hf
   | .anyOf _, _, hf, _ => by simp [idemFrag] at hf
